@@ -121,4 +121,17 @@ theorem ansOf_sound (ρ : String → Int) (o : CmpOp) (r : Bool × E) (x : Int)
     · rename_i v
       exact lit_case v (by simp) (by simp [isLitZero]) (Or.inl (cmpZero_pyint v o))
 
+/-- core: the answer agrees with the integer comparison of the operand values -/
+theorem answer_sound (a b : E) (o : CmpOp) (ρ : String → Int) (hρ : CaseInsens ρ)
+    (hk : Known09 a o b = false) (hz : SignZero a b = false) :
+    (symbolicOp a o b = .yes → cmpInt o (ev ρ a) (ev ρ b) = true) ∧
+    (symbolicOp a o b = .no → cmpInt o (ev ρ a) (ev ρ b) = false) := by
+  rw [symbolicOp_resid, cmpInt_sub]
+  cases hr : resid a b with
+  | none => simp
+  | some r =>
+    simp only [Known09, hr] at hk
+    simp only [SignZero, hr] at hz
+    exact ansOf_sound ρ o r _ (resid_ev ρ hρ a b r hr) (by simpa [Bool.and_assoc] using hk) hz
+
 end LokiModel.C09
